@@ -356,12 +356,12 @@ fn c10_header_table() {
     kani::cover!(i == 11);
 }
 
-/// one symbolic 16-byte string offered to eight PASERK parsers (two versions, every kind whose header
-/// fits): at most one accepts
+/// one symbolic 12-byte string offered to six PASERK parsers (two versions; local, secret, public,
+/// seal — tails of 3, 2, 2 and 4 characters): at most one accepts
 #[kani::proof]
 #[kani::unwind(64)]
 fn c10_no_string_accepted_twice() {
-    let s: [u8; 16] = kani::any();
+    let s: [u8; 12] = kani::any();
     let st = unsafe { core::str::from_utf8_unchecked(&s) };
     let mut n = 0u32;
     macro_rules! tryp {
@@ -374,12 +374,10 @@ fn c10_no_string_accepted_twice() {
         }};
     }
     tryp!(KeyText<AV, Local>);
+    tryp!(KeyText<AV3, Local>);
     tryp!(KeyText<AV, Secret>);
     tryp!(KeyText<AV, Public>);
-    tryp!(KeyText<AV3, Local>);
     tryp!(KeyText<AV3, Secret>);
-    tryp!(PasswordWrappedKey<AV, Local>);
-    tryp!(PasswordWrappedKey<AV, Secret>);
     tryp!(SealedKey<AV>);
     assert!(n <= 1, "a string is accepted by two different parsers");
     kani::cover!(n == 1);
